@@ -192,6 +192,29 @@ def r1_r2_r3_r5a(ctx, F):
     ctx.check(okmin, 'C17-R5', 'earliest-deadline-first', b,
               good='the next interrupt is the entry with the minimum deadline',
               bad='actor::spawn: the next interrupt is not chosen as the minimum deadline')
+    # ... of the map as it is NOW: every round walks next_interrupts again before it looks at a deadline (a pick kept
+    # from an earlier round may name a timer that was cancelled or re-armed since)
+    walks = []
+    for c in b.calls_to('HashMap::iter', 'HashMap::values', 'HashMap::keys', 'HashMap::iter_mut',
+                        'IntoIterator::into_iter'):
+        if not c.args:
+            continue
+        tys = ' '.join(c.targs or [])
+        v_ = noref(b.trace(b.val(c.args[0]), ('Deref::deref',)))
+        if v_.kind == 'local':
+            tys += ' ' + b.locals[v_.key]['ty']
+        elif v_.kind == 'call' and b.call_at(v_.key) is not None and not b.call_at(v_.key).dest['p']:
+            tys += ' ' + b.locals[b.call_at(v_.key).dest['l']]['ty']
+        if 'HashMap<' in tys and 'Instant' in tys:
+            walks.append(c)
+    if not walks:
+        raise AnchorMissing('spawn thread: walk over next_interrupts')
+    r_ = b.reach([e[1] for e in ne + se], cut_blocks=[c.bb for c in walks])
+    ctx.check(cds[0].bb not in r_, 'C17-R5', 'earliest-deadline-recomputed-every-round', b,
+              good='every round of the loop walks next_interrupts before it looks at a deadline',
+              bad='actor::spawn: the loop can come back to the deadline test without having walked next_interrupts '
+                  'again: the earliest interrupt is kept from an earlier round, so a timer that was cancelled (or '
+                  're-armed later) since then still fires at its old deadline')
 
 
 def arm_blocks(b, sw, variant):
